@@ -48,7 +48,11 @@ func (w *World) TruthPar1() Truth1 {
 		if !ok {
 			continue
 		}
-		if snap, has := w.Created[p]; has && string(snap) == string(b) {
+		// a volume is intact when everything the format protects (all
+		// bytes from 0x20 on, covered by the control hash) is what Create
+		// wrote; the generator id in the upper half of the version field
+		// is neither protected nor meaningful
+		if snap, has := w.Created[p]; has && len(b) >= 0x20 && len(snap) >= 0x20 && string(snap[0x20:]) == string(b[0x20:]) {
 			t.PresentVolumes = append(t.PresentVolumes, v)
 		} else {
 			t.DamagedVolumes = append(t.DamagedVolumes, v)
